@@ -271,6 +271,7 @@ func runSeq(c *ioCase, obs *ioObs) {
 	type item struct {
 		reset    bool
 		resetbuf bool
+		write    bool // Encoder.Write instead of Encoder.Encode
 		v        reflect.Value
 	}
 	var items []item
@@ -300,7 +301,10 @@ func runSeq(c *ioCase, obs *ioObs) {
 		iv := reflect.New(ifaceType).Elem()
 		iv.Set(h.Elem())
 		sx, _, _ := describeWith(wk, iv)
-		items = append(items, item{v: h.Elem()})
+		items = append(items, item{v: h.Elem(), write: st.Op == "write"})
+		if st.Op == "write" {
+			sx = "write:" + sx
+		}
 		steps = append(steps, sx)
 	}
 	modes := c.Modes
@@ -321,6 +325,10 @@ func runSeq(c *ioCase, obs *ioObs) {
 				} else if it.resetbuf {
 					if c.Writer {
 						enc.ResetBuffer()
+					}
+				} else if it.write {
+					if e := enc.Write(it.v.Interface()); e != nil {
+						so.EncErr = e.Error()
 					}
 				} else if e := enc.Encode(it.v.Interface()); e != nil {
 					so.EncErr = e.Error()
